@@ -8,6 +8,9 @@ Definition gen_quirks : option quirks := classify_methods gen_method.
 (* -1 = no member of the family; else bit 0 = q_sub_drops_days, bit 1 = q_add_collapses *)
 Definition gen_quirks_code : Z := quirks_code gen_quirks.
 
+(* unary minus of a duration as read from the source: 0 = specification, 4 = inherited ndarray.__neg__, -1 = neither *)
+Definition gen_neg_code : Z := classify_neg gen_neg.
+
 Definition gen_plus (a b : obj) : option obj :=
   run_method (gen_method (match okind a with KTime => TimeAdd | KDelta => DeltaAdd end)) a b.
 Definition gen_minus (a b : obj) : option obj :=
